@@ -135,7 +135,7 @@ func (fm *Frame) ErrorFile() *os.File {
 // This is a low-level construct that shouldn't be used for writing output; for
 // that purpose, use [(*Frame).ValueOutput] and [(*Frame).ByteOutput] instead.
 func (fm *Frame) Port(i int) *Port {
-	if i >= len(fm.ports) {
+	if i < 0 || i >= len(fm.ports) {
 		return nil
 	}
 	return fm.ports[i]
